@@ -156,7 +156,7 @@ def expressible(doc, fmt):
     if k == "book":
         return fmt in ("xlsx", "ods")
     if k == "pages":
-        return fmt in ("pdf", "txt", "md", "csv", "tsv", "json", "rtf")
+        return fmt in ("pdf", "txt", "md", "csv", "tsv", "json", "rtf", "epub")
     return False
 
 
@@ -185,6 +185,9 @@ def render(doc, fmt) -> bytes:
             return misc.write_pdf(doc["pages"], doc.get("props"))
         if fmt == "rtf":
             return misc.write_rtf({"pages": [[["p", [["r", i] for i in ln]] for ln in pg] for pg in doc["pages"]]})
+        if fmt == "epub":
+            return web.write_epub({"chapters": [{"blocks": [["p", [["r", i] for i in ln]] for ln in pg]}
+                                                for pg in doc["pages"]], "props": doc.get("props")})
         return misc.write_plain([ln for pg in doc["pages"] for ln in pg], fmt)
     raise ValueError((k, fmt))
 
